@@ -18,6 +18,7 @@ from pharmpy.model import Assignment, Model, Parameter, Parameters, Statement, S
 from .common import get_model_covariates
 from .data import get_baselines
 from .expressions import (
+    create_symbol,
     depends_on,
     get_individual_parameters,
     remove_covariate_effect_from_statements,
@@ -413,7 +414,10 @@ def add_covariate_effect(
 
     covariate_effect = _create_template(effect, model, covariate)
     pset, thetas = _create_thetas(model, parameter, effect, covariate, covariate_effect.template)
-    covariate_effect.apply(parameter, covariate, thetas, statistics)
+    # NOTE: With allow_nested an effect of this covariate on this parameter can
+    # already exist, the new effect must not redefine its symbol
+    effect_name = create_symbol(model, f'{parameter}{covariate}').name
+    covariate_effect.apply(parameter, covariate, thetas, statistics, effect_name=effect_name)
     # NOTE: We hoist the statistic statements to avoid referencing variables
     # before declaring them. We also avoid duplicate statements.
     sset = [s for s in covariate_effect.statistic_statements if s not in sset] + sset
@@ -667,8 +671,9 @@ class CovariateEffect:
         self.template = template
         self.statistic_statements = []
 
-    def apply(self, parameter, covariate, thetas, statistics):
-        effect_name = f'{parameter}{covariate}'
+    def apply(self, parameter, covariate, thetas, statistics, effect_name=None):
+        if effect_name is None:
+            effect_name = f'{parameter}{covariate}'
         theta_subs = self.template.expression.subs(thetas)
         cov_subs = theta_subs.subs({'cov': covariate})
 
